@@ -240,7 +240,14 @@ def hazards(spec, n):
                 if _alias_in(s, env):
                     out.add("alias_const_vs_loop_subscript")
     rec(spec["body"], {})
+    # repaired in /repo (fix: commits 79f0ec7, 7045abb): these shapes are
+    # still generated but are no longer excuses for a failure
+    out -= FIXED_HAZARDS
     return sorted(out)
+
+
+FIXED_HAZARDS = {"start_is_sum_nonunit_step", "negative_literal_loop_start",
+                 "negative_self_coefficient"}
 
 
 def hazard_families(spec, sizes):
@@ -823,7 +830,7 @@ def _driver_text(spec):
          "  integer :: n, nk, variant, nact, col, i, k, nbad, nshown",
          "  integer :: pch_tl, pch_ad",
          "  logical :: exact",
-         "  real(kind=8) :: d",
+         "  real(kind=8) :: d, mscale",
          "  real(kind=8), parameter :: one = 1.0d0",
          "  real(kind=8), allocatable :: ma(:,:), mb(:,:), x(:), y(:)"]
     for a in arrays:
@@ -863,12 +870,23 @@ def _driver_text(spec):
               "  end do",
               "  write(*,'(a)') '%s_DONE'" % tag,
               "  flush(6)"]
+    # In the real(16) confirmation run a difference must also exceed 1e-18
+    # of the largest entry: generated kernels grow values like 8**(n*n) and
+    # an entry that is exactly 0 (or small) in exact arithmetic is then the
+    # residue of cancelling terms of that size (observed: 8.5e72 against an
+    # exact 0 with entries up to 1e82 in real(8)); a wrong adjoint differs in
+    # the leading digits of entries at every size, incl. the small sizes
+    # where nothing grows.
     L += ["  nbad = 0", "  exact = .true.", "  nshown = 0",
+          "  mscale = one",
+          "  if (nact > 0) mscale = max(one, maxval(abs(ma)), "
+          "maxval(abs(mb)))",
           "  do i = 1, nact", "    do k = 1, nact",
           "      d = abs(mb(k,i) - ma(i,k))",
           "      if (d /= 0.0d0) then",
           "        exact = .false.",
-          "        if (d > 1.0d-9 * max(one, abs(ma(i,k)), abs(mb(k,i)))) "
+          "        if (d > 1.0d-9 * max(one, abs(ma(i,k)), abs(mb(k,i))) "
+          ".and. (epsilon(one) > 1.0d-20 .or. d > 1.0d-18 * mscale)) "
           "then",
           "          nbad = nbad + 1",
           "          if (nshown < 12) then",
